@@ -54,7 +54,7 @@ def _standin(rep, tier, seed):
     rng = random.Random(seed * 1009 + 14)
     n = 150 if tier == "quick" else 2500
     evals, distinct, samples = 0, set(), []
-    sigmas = [1e-2, 0.1, 0.4, 1.0, 10.0, 100.0]
+    sigmas = [1e-4, 1e-3, 1e-2, 0.1, 0.4, 1.0, 10.0, 100.0]
     for it in range(n):
         s = rng.choice(sigmas)
         scale = rng.choice([1.0, 1.0, 1e-2, 1e2])
